@@ -54,7 +54,7 @@ class Path(object):
 
 class Ctx(object):
     def __init__(self, pre, max_decisions=300, timeout_ms=20000, trig=None, check_div0=True,
-                 track_sites=False, max_paths=5000, opaque_mul=False, fresh_div=False, max_seconds=None):
+                 track_sites=False, max_paths=5000, opaque_mul=False, fresh_div=False, max_seconds=None, lazy=False):
         self.pre = list(pre) if isinstance(pre, (list, tuple)) else [pre]
         self.max_decisions = max_decisions
         self.timeout_ms = timeout_ms
@@ -64,6 +64,7 @@ class Ctx(object):
         self.max_paths = max_paths
         self.opaque_mul = opaque_mul
         self.fresh_div = fresh_div
+        self.lazy = lazy
         self.max_seconds = max_seconds or float(os.environ.get('SYMX_EXPLORE_BUDGET_S', '0') or 0) or None
         self.t_start = time.time()
         self.nq = 0
@@ -127,6 +128,17 @@ class Ctx(object):
                 raise Unwind()
             if self.max_seconds and time.time() - self.t_start > self.max_seconds:
                 raise EngineError('exploration exceeded its wall-clock budget of %ds' % self.max_seconds)
+            if self.lazy:
+                # lazy mode (expensive theories): take both sides without asking; the whole path condition is
+                # decided once when the path is complete, infeasible paths are dropped there
+                self.todo.append(self.prefix[:self.pos] + [False])
+                self.prefix.append(True)
+                self.pos += 1
+                self.path.pc.append(cond)
+                self.solver.add(cond)
+                if 'lazy' not in self.path.notes:
+                    self.path.notes.append('lazy')
+                return True
             rt = self._check(cond)
             if weak_true and rt == z3.unknown:
                 self.div0_unknown += 1
@@ -200,11 +212,11 @@ class Ctx(object):
                     p.kind = 'exc'
                     p.exc = e
                 p.decisions = self.pos
-                if 'unknown-feasibility' in p.notes:
+                if 'unknown-feasibility' in p.notes or self.lazy:
                     # some branch on this path was taken on an `unknown` answer: re-decide the whole path condition
                     # with a larger budget; an infeasible path is dropped, an undecided one stays (and is flagged)
                     s2 = self.new_solver()
-                    s2.set('timeout', 8 * self.timeout_ms)
+                    s2.set('timeout', (1 if self.lazy else 8) * self.timeout_ms)
                     for c in p.conds():
                         s2.add(c)
                     t0 = time.time()
